@@ -348,6 +348,16 @@ func (o Options) pathFromDocument(ldCtx *ld.Context, docObj interface{},
 			return nil, err
 		}
 
+		// an index selects that element of the array: it has to exist, and it is
+		// the element the rest of the path is resolved in (its types decide
+		// which type-scoped contexts apply)
+		if docArr, isArr := docObj.([]interface{}); isArr {
+			if int(i64) >= len(docArr) {
+				return nil, fmt.Errorf("index %d is out of range", i64)
+			}
+			docObj = docArr[i64]
+		}
+
 		moreParts, err := o.pathFromDocument(ldCtx, docObj, newPathParts, true)
 		if err != nil {
 			return nil, err
